@@ -16,11 +16,11 @@
   processing - the only thing a permutation could change - does not depend on the hash seed.
 
   The congruence of the control step under permutation of the entity maps is proved in
-  `Properties/C01Walk.lean` (`control_run_order_independent`, on top of `C01Prims.lean`); the
+  `Properties/C01Walk.lean` (`control_run_order_independent`, on top of `C01Prims.lean`) and, for the
+  complete cycle, in `Properties/C01Cycle.lean` (`reachable_order_independent`); the
   regenerated iteration-site table of the *source* is `C01Sites.lean`.
 
-  Partial: the order inside the cells of the location indexes, the pre-step phases beyond their
-  processing order, and the instruction generators, rankings and reporters are not covered by the
+  Partial: the order inside the cells of the location indexes, the file readers, and the instruction generators, rankings and reporters are not covered by the
   congruence. Those are decided by running the real code - whole packaged scenarios and
   function-level worlds with tied rankings and multi-fleet vehicles - in separate interpreters under
   different PYTHONHASHSEED values and comparing canonical per-step digests (hashseed layer).
